@@ -121,6 +121,10 @@ def project(events: list[tuple], n_threads: int = 2) -> list[tuple[int, str]]:
                 elif not unwinding:
                     unwinding = True
                     a = "cExc"
+            elif kind == "cmd_exec" and obj == "SHUTDOWN":
+                a = "cCmdShutdown"
+            elif kind == "uptime_reached":
+                a = "cUptime"
             elif kind == "read" and obj.startswith("exc["):
                 a = f"cReadExc {TID[obj[4:-1]]} {int(val)}"
             elif kind == "join":
